@@ -255,8 +255,8 @@ class C01(FrpProp):
     extra_props = ["Refine"]
     level_text = 'Theorems over the specification Spec/Sodium.v for ALL programs/histories: listener calls are produced only by the step that closes the outermost transaction (any nesting of closure and scoped brackets); that close calls each active listener exactly once iff its stream fires, with that value, and nobody else; listener keys stay distinct; the next transaction starts with no sends (no carry-over). Refine_history: on the static fragment the operational engine delivers exactly these calls. Tie: differential correspondence of the real library against the extracted specification on generated scripts with sends/listens/constructions at every position of nested brackets.'
     tag = "c01"
-    profile = Profile(w=W(), p_block=0.8, p_nested=0.3, p_scoped=0.25, p_def_in_txn=0.3, p_listen_late=0.5,
-                      p_unlisten=0.2, n_txn=(4, 12))
+    profile = Profile(w=W(defer=4, split=2), p_block=0.8, p_nested=0.3, p_scoped=0.25, p_def_in_txn=0.3, p_listen_late=0.5,
+                      p_unlisten=0.2, n_txn=(4, 12), p_post=0.25)
 
 
 class C04(FrpProp):
